@@ -349,7 +349,7 @@ func decodeEdit(data []byte) (Edit, error) {
 		// | TruncatedIndex (v)| TruncatedTerm (v)| SegmentIndex (v)| TruncatedOffset (v)|
 		// +-----------------+-----------------+-----------------+-----------------+
 		// (v) denotes Uvarint
-		if pos <= len(data) {
+		if pos < len(data) { // an edit logged with a nil Raft pointer has no body and is a no-op
 			groupID, n := uvarintAt(data, pos)
 			pos += n
 			seg, n := uvarintAt(data, pos)
@@ -424,7 +424,7 @@ func decodeEdit(data []byte) (Edit, error) {
 		// | Epoch.ConfVersion (v) | State (1B) | PeersCount (v) | Peer1.StoreID (v) | Peer1.PeerID (v) | ... |
 		// +-----------------------+------------+----------------+-------------------+------------------+
 		// (v) denotes Uvarint, (lv) denotes Length-prefixed Bytes (Uvarint length + bytes)
-		if pos <= len(data) {
+		if pos < len(data) { // an edit logged with a nil Region has no body and is a no-op
 			regionID, n := uvarintAt(data, pos)
 			pos += n
 			if pos > len(data) {
